@@ -782,21 +782,22 @@ Definition cmd_yank (e : ed) : res ed :=
   let '(e, n) := it_get e in
   Ok (iter_n (times_nat n) (fun e => c_insert_at e buf) e).
 
-(* vi-delete-to / vi-yank-to with an active selection (visual mode, or after the motion of d<motion>) *)
-Definition cmd_vi_delete_sel (e : ed) : res ed :=
-  do e <- h_save e;
-  let e := adjust_selection_pending e in
-  let '(e, cp) := s_cursor e in
+(* vi-delete-to / vi-yank-to with an active selection (visual mode, or after the motion of
+   d<motion>): the part after the undo save and the inclusive-motion adjustment *)
+Definition del_tail (e2 : ed) : res ed :=
+  let '(e, cp) := s_cursor e2 in
   do r <- s_cut e;
   let '(e, t) := r in
   vi_command_mode (c_set (ring_write e t) cp).
-
-Definition cmd_vi_yank_sel (e : ed) : res ed :=
-  do e <- h_save e;
-  let e := adjust_selection_pending e in
-  do r <- s_pop e;
+Definition yank_tail (e2 : ed) : res ed :=
+  do r <- s_pop e2;
   let '(e, t, _, _, cp) := r in
   vi_command_mode (c_set (ring_write e t) cp).
+
+Definition cmd_vi_delete_sel (e : ed) : res ed :=
+  do e <- h_save e; del_tail (adjust_selection_pending e).
+Definition cmd_vi_yank_sel (e : ed) : res ed :=
+  do e <- h_save e; yank_tail (adjust_selection_pending e).
 
 (* one command; `keys` is Keys.Caller() *)
 Definition run_command (name : list Z) (keys : list Z) (mem_kind : bool) (max_entries : Z) (e : ed) : res ed :=
